@@ -106,6 +106,38 @@ def r1(run: Run, src):
         run.check(len(sheet_appends) == 1, 'C18.R1', 'Excel.parse/one-entry-per-row', 'row-skipped-or-doubled',
                   'the row list is not appended exactly once per row (unconditionally) to the sheet data: an empty row that is '
                   'skipped shifts every later row', fact='one entry per row', loc=loc_of(fi.module.path, row_loop))
+    # the data lists are append-only: an entry that is removed, replaced or filtered after it was read makes cells that the
+    # workbook holds (0, FALSE and empty text are values) come out as blanks, or shifts later rows
+    data_lists = set(row_lists)
+    for s_ in ast.walk(sheet_loop):
+        if isinstance(s_, ast.Call) and isinstance(s_.func, ast.Attribute) and s_.func.attr == 'append' and s_.args and \
+                ast.unparse(s_.args[0]) in data_lists:
+            data_lists.add(ast.unparse(s_.func.value))
+    for s_ in ast.walk(fi.node):
+        if isinstance(s_, ast.Call) and isinstance(s_.func, ast.Attribute) and s_.func.attr == 'append' and s_.args and \
+                ast.unparse(s_.args[0]) in data_lists:
+            data_lists.add(ast.unparse(s_.func.value))
+    removers = []
+    for n_ in ast.walk(fi.node):
+        if isinstance(n_, ast.Call) and isinstance(n_.func, ast.Attribute) and ast.unparse(n_.func.value) in data_lists and \
+                n_.func.attr in ('pop', 'remove', 'clear', 'insert', 'reverse', 'sort', 'extend'):
+            removers.append(n_)
+        if isinstance(n_, ast.Delete) and any(ast.unparse(getattr(t, 'value', t)) in data_lists for t in n_.targets):
+            removers.append(n_)
+        if isinstance(n_, (ast.Assign, ast.AugAssign)):
+            tg = n_.targets if isinstance(n_, ast.Assign) else [n_.target]
+            for t in tg:
+                if isinstance(t, ast.Subscript) and ast.unparse(t.value) in data_lists:
+                    removers.append(n_)
+                if isinstance(t, ast.Name) and t.id in data_lists and not (isinstance(n_, ast.Assign) and isinstance(n_.value, ast.List)
+                                                                            and not n_.value.elts):
+                    removers.append(n_)
+    for r_ in removers:
+        run.bad('C18.R1', f'Excel.parse/{ast.unparse(r_)[:50]}', 'data-list-edited',
+                f'`{ast.unparse(r_)[:80]}` removes, replaces or reorders entries of the data that was read: rows or cells the workbook '
+                f'holds (a last row containing only 0, FALSE or empty text, for instance) are lost or shifted', loc=loc_of(fi.module.path, r_))
+    if not removers:
+        run.ok('C18.R1', 'Excel.parse/append-only', f'the data lists {sorted(data_lists)} are only appended to', loc=loc_of(fi.module.path, fi.node))
     # get_cells
     ex = src.cls('Excel')
     gc = ex.methods.get('get_cells')
